@@ -57,8 +57,37 @@ NAME_POOLS = [['chr1', 'chr11', 'chr2', 'chr1_alt', 'chr'],
 
 
 # ----------------------------------------------------------------------------- generator
-def _included(genome, filt):
-    return [i for i, (n, s) in enumerate(genome) if filt == 'keep' or '_' not in n]
+def _included(genome, filt, added=()):
+    """indices of the chromosomes of the genome: kept by the filter and never handed to with_ignored_added"""
+    gone = {n for step in added for n in step}
+    return [i for i, (n, s) in enumerate(genome) if (filt == 'keep' or '_' not in n) and n not in gone]
+
+
+def _ext(genome, added):
+    """the dict after the with_ignored_added steps: new names are appended (size 0), in order of first appearance"""
+    ext = [list(x) for x in genome]
+    have = {n for n, s in ext}
+    for step in added:
+        for n in step:
+            if n not in have:
+                have.add(n)
+                ext.append([n, 0])
+    return ext
+
+
+NEW_NAMES = ['chrEBV', 'chrUn_x', 'zz', 'chr1_gl', 'M']
+
+
+def _gen_added(rng, genome, filt):
+    """0..2 with_ignored_added steps of 0..2 names each: existing names (ignored ones and regular ones) and new ones"""
+    while True:
+        steps = []
+        for _ in range(rng.choice([0, 1, 1, 2])):
+            k = rng.choice([0, 1, 1, 2])
+            pool = [n for n, s in genome] + NEW_NAMES[:3] + [rng.choice(NEW_NAMES)]
+            steps.append(rng.sample(pool, k))
+        if _included(genome, filt, steps):
+            return steps
 
 
 def _gen_genome(rng, S):
@@ -84,6 +113,9 @@ def _gen_entries(rng, genome, on, boundary):
     for i in on:
         size = genome[i][1]
         k = rng.choice([0, 0, 1, 1, 2, 3])
+        if size == 0:                 # a name that only exists as "known but ignored"
+            es += [[i, 0, 1, rng.randint(0, 1)] for _ in range(min(k, 1))]
+            continue
         for _ in range(k):
             a, b = _endpoint(rng, size), _endpoint(rng, size)
             a, b = min(a, b), max(a, b)
@@ -101,14 +133,19 @@ def _gen_entries(rng, genome, on, boundary):
     return es
 
 
-def _ops_for(rng, genome, filt, es, es_all, shuffled, locs, tier):
+def _ops_for(rng, genome, filt, es, es_all, shuffled, locs, tier, added=()):
     """all operations on one base scenario.  es: entries on included chromosomes only (sorted);
     es_all: entries possibly also on ignored chromosomes (sorted); shuffled: es_all in random order"""
-    vals = [[(i + 1) * 10 + p for p in range(s)] for i, (n, s) in enumerate(genome)]
+    added = [list(st) for st in added]
+    ext = _ext(genome, added)
+    vals = [[(i + 1) * 10 + p for p in range(s)] for i, (n, s) in enumerate(ext)]
     out = []
 
     def add(op, entries, vals_=None):
-        out.append(dict(genome=genome, filter=filt, entries=entries, vals=vals_, op=op))
+        # Geometry(chrom_sizes) knows nothing of with_ignored_added: its cases run on the plain dict
+        is_geo = len(op) > 1 and op[1] == 1 and op[0] in ('pileup', 'mask', 'merged', 'clip', 'extend', 'sorted')
+        out.append(dict(genome=genome, filter=filt, added=[] if is_geo else added, entries=entries,
+                        vals=(vals_[:len(genome)] if (is_geo and vals_) else vals_), op=op))
     add(['coords'], [])
     for geo in (0, 1):
         base = es if geo else shuffled
@@ -120,7 +157,7 @@ def _ops_for(rng, genome, filt, es, es_all, shuffled, locs, tier):
         if (geo or CLIP_OUTSIDE_FULL) and base:
             # the single-contig clip pulls an interval lying entirely outside its chromosome back into [0, size]
             c = rng.choice(base)[0]
-            wide.append([c, genome[c][1] + 1, genome[c][1] + 3, 1] if rng.random() < 0.5 else [c, -3, -1, 1])
+            wide.append([c, ext[c][1] + 1, ext[c][1] + 3, 1] if rng.random() < 0.5 else [c, -3, -1, 1])
         add(['clip', geo], wide)
         add(['extend', geo, rng.choice([1, 2, 3, 5])], base)
         add(['sorted', geo], base)
@@ -134,11 +171,11 @@ def _ops_for(rng, genome, filt, es, es_all, shuffled, locs, tier):
     add(['windows', 'size', rng.choice([1, 2, 3, 4, 5])], locs)
     add(['locsorted'], locs)
     ne = [e for e in shuffled if e[1] < e[2]]
-    inc_ = _included(genome, filt)
+    inc_ = _included(genome, filt, added)
     if any(e[0] in inc_ for e in ne):
         for st in (0, 1):
             add(['extract', st], ne, vals)
-        seqs = [[rng.choice(b'ACGT') for _ in range(s)] for n, s in genome]
+        seqs = [[rng.choice(b'ACGT') for _ in range(s)] for n, s in ext]
         for st in (0, 1):
             add(['seq', st, 'dict'], ne, seqs)
             add(['seq', st, 'fasta'], ne, seqs)
@@ -147,7 +184,11 @@ def _ops_for(rng, genome, filt, es, es_all, shuffled, locs, tier):
 
 def _scenario(rng, S, tier, bad=False):
     genome, filt = _gen_genome(rng, S)
-    inc = _included(genome, filt)
+    # two-step configuration: the genome as built by from_dict, then 0..2 Genome.with_ignored_added calls
+    added = _gen_added(rng, genome, filt) if rng.random() < 0.6 else []
+    orig = genome
+    inc = _included(orig, filt, added)
+    genome = _ext(orig, added)           # entries / locations may also sit on the names that were only added
     allc = list(range(len(genome)))
     boundary = rng.random() < 0.6
     es = _gen_entries(rng, genome, inc, boundary)
@@ -159,10 +200,10 @@ def _scenario(rng, S, tier, bad=False):
     for i in allc:
         size = genome[i][1]
         for _ in range(rng.choice([0, 1, 1, 2])):
-            p = rng.choice([0, size - 1, rng.randrange(size)])
+            p = rng.choice([0, size - 1, rng.randrange(size)]) if size else 0
             locs.append([i, p, p + 1, 1])
     rng.shuffle(locs)
-    cases = _ops_for(rng, genome, filt, es, es_all, shuffled, locs, tier)
+    cases = _ops_for(rng, orig, filt, es, es_all, shuffled, locs, tier, added)
     if bad and inc:
         # one entry reaching outside its chromosome: the placing operations must refuse it
         i = rng.choice(inc)
@@ -182,13 +223,13 @@ def _scenario(rng, S, tier, bad=False):
         vals = [[(k + 1) * 10 + p for p in range(s)] for k, (n, s) in enumerate(genome)]
         cases = []
         for op in (['pileup', 0], ['mask', 0], ['merged', 0, 1], ['merged', 0, 0]):
-            cases.append(dict(genome=genome, filter=filt, entries=bes, vals=None, op=op))
+            cases.append(dict(genome=orig, filter=filt, added=added, entries=bes, vals=None, op=op))
         ne = [x for x in bes if x[1] < x[2]]
         if ne:
-            cases.append(dict(genome=genome, filter=filt, entries=ne, vals=vals, op=['extract', 0]))
+            cases.append(dict(genome=orig, filter=filt, added=added, entries=ne, vals=vals, op=['extract', 0]))
         if filt == 'us':
-            cases.append(dict(genome=genome, filter=filt, entries=bes, vals=None, op=['pileup', 1]))
-            cases.append(dict(genome=genome, filter=filt, entries=bes, vals=None, op=['sorted', 1]))
+            cases.append(dict(genome=orig, filter=filt, added=[], entries=bes, vals=None, op=['pileup', 1]))
+            cases.append(dict(genome=orig, filter=filt, added=[], entries=bes, vals=None, op=['sorted', 1]))
     return cases
 
 
@@ -241,10 +282,11 @@ def observe(case):
     from bionumpy.genomic_data.genome_context import ignore_underscores, keep_all
     from bionumpy.genomic_data.geometry import Geometry
     genome = case['genome']
-    names = [n for n, s in genome]
+    added = case.get('added') or []
+    names = [n for n, s in _ext(genome, added)]      # entries index into the dict after the with_ignored_added steps
     sizes = {n: s for n, s in genome}
     filt = ignore_underscores if case['filter'] == 'us' else keep_all
-    inc = _included(genome, case['filter'])
+    inc = _included(genome, case['filter'], added)
     op = case['op']
     es = case['entries']
 
@@ -287,6 +329,8 @@ def observe(case):
     try:
         kind = op[0]
         g = bnp.Genome.from_dict(sizes, filter_function=filt)
+        for step in added:
+            g = g.with_ignored_added(list(step))
         geo = Geometry(sizes) if (len(op) > 1 and op[1] == 1 and kind in ('pileup', 'mask', 'merged', 'clip', 'extend', 'sorted')) else None
         if kind == 'coords':
             go = g.get_genome_context().global_offset
@@ -360,6 +404,8 @@ def observe(case):
                             for k in range(0, len(s), 3):
                                 f.write(s[k:k + 3] + '\n')
                     g2 = bnp.Genome.from_file(path, filter_function=filt)
+                    for step in added:
+                        g2 = g2.with_ignored_added(list(step))
                     r = g2.read_sequence()[g2.get_intervals(intervals(st), stranded=st)]
                     return rows_res(r, lambda row: list(row.to_string().encode()))
                 finally:
@@ -419,8 +465,9 @@ def to_coq(case, o):
     es = clist(['{| e_chr := %s; e_start := %s; e_stop := %s; e_fwd := %s |}' % (cz(c), cz(s), cz(t), cbool(f))
                 for c, s, t, f in case['entries']], 'entry')
     vals = clist([zl(v) for v in case['vals']], 'list Z') if case['vals'] else '(@nil (list Z))'
-    return ('{| k_genome := %s; k_filter := %s; k_entries := %s; k_vals := %s; k_op := %s; k_obs := %s |}' % (
-        genome, 'KeepAll' if case['filter'] == 'keep' else 'IgnoreUnderscore', es, vals, _op_term(case['op']), _res_term(o)))
+    added = clist([clist([hx(n.encode()) for n in step], 'list Z') for step in (case.get('added') or [])], 'list (list Z)')
+    return ('{| k_genome := %s; k_filter := %s; k_added := %s; k_entries := %s; k_vals := %s; k_op := %s; k_obs := %s |}' % (
+        genome, 'KeepAll' if case['filter'] == 'keep' else 'IgnoreUnderscore', added, es, vals, _op_term(case['op']), _res_term(o)))
 
 
 # ----------------------------------------------------------------------------- evidence helpers
@@ -430,7 +477,7 @@ def _touches_end(case):
 
 
 def nontrivial(case, o):
-    inc = _included(case['genome'], case['filter'])
+    inc = _included(case['genome'], case['filter'], case.get('added') or [])
     if len(inc) < 2:
         return False
     used = {e[0] for e in case['entries']}
@@ -460,7 +507,7 @@ def distribution(cases, obs):
         ends = {e[0] for e in c['entries'] if e[2] == g[e[0]][1]}
         zeros = {e[0] for e in c['entries'] if e[1] == 0}
         d['boundary_pairs'] += any((i + 1) in zeros for i in ends)
-        inc = _included(g, c['filter'])
+        inc = _included(g, c['filter'], c.get('added') or [])
         used = {e[0] for e in c['entries']}
         d['empty_chromosome'] += bool(used) and any(i not in used for i in inc)
         d['ignored_in_genome'] += len(inc) < len(g)
@@ -469,7 +516,7 @@ def distribution(cases, obs):
 
 # ----------------------------------------------------------------------------- known findings (signature matchers)
 def _vis(case):
-    inc = _included(case['genome'], case['filter'])
+    inc = _included(case['genome'], case['filter'], case.get('added') or [])
     return [e for e in case['entries'] if e[0] in inc]
 
 
